@@ -17,7 +17,7 @@ from model import Opt, Schema, dump_sec
 import reftext
 
 PID = 'C08'
-E8 = Schema('E8', [Opt('int', 'i', '', 5), Opt('str', 's', '', b'd'), Opt('int', 'l', 'L', [b'1']),
+E8 = Schema('E8', [Opt('int', 'i', '', 5), Opt('str', 's', '', b'd'), Opt('int', 'l', 'L', [b'1']), Opt('float', 'f', '', 1.5),
                    Opt('sec', 'm', 'M', sub=[Opt('int', 'x', '', 1)]), Opt('func', 'include', '', None, 'i'),
                    Opt('sec', 'sec', '', sub=[Opt('int', 'x', '', 1)])])
 CHAIN = 10
@@ -38,7 +38,7 @@ EVENTS = {
     'dq': ('buf', b's = "abc'), 'dqf': ('file', b'dq.conf'), 'dq0': ('buf', b'"abc'),
     'sq': ('buf', b"s = 'abc"), 'sqf': ('file', b'sq.conf'),
     'cm': ('buf', b'/* abc'), 'cmf': ('file', b'cm.conf'),
-    'esc': ('buf', b's = "\\9"'), 'range': ('buf', b'i = 99999999999999999999'),
+    'esc': ('buf', b's = "\\9"'), 'range': ('buf', b'i = 99999999999999999999'), 'frange': ('buf', b'f = 1e99999'),
     'inc1': ('buf', b'include("bad1.conf")'), 'inc1f': ('file', b'incbad1.conf'),
     'inc2': ('buf', b'include("inc2.conf")'), 'incdq': ('buf', b'include("dqinc.conf")'),
     'incself': ('buf', b'include("self.conf")'), 'incmiss': ('buf', b'include("nope.conf")'), 'incdir': ('buf', b'include("d")'),
@@ -48,7 +48,7 @@ EVENTS = {
     'reinit': ('reinit', None), 'switch': ('switch', None),
 }
 KEEP = ('ok', 'okf', 'okfp', 'oksecf', 'reinit', 'switch')     # events with a lasting, specified effect on the stores
-ORDER = ['ok', 'okf', 'syn', 'synf', 'dq', 'dqf', 'dq0', 'sq', 'sqf', 'cm', 'cmf', 'esc', 'range', 'inc1', 'inc1f', 'inc2', 'incdq',
+ORDER = ['ok', 'okf', 'syn', 'synf', 'dq', 'dqf', 'dq0', 'sq', 'sqf', 'cm', 'cmf', 'esc', 'range', 'frange', 'inc1', 'inc1f', 'inc2', 'incdq',
          'incself', 'incmiss', 'incdir', 'oksecf', 'incsecbad', 'okfp', 'synfp', 'fperr', 'reinit', 'switch']
 
 PROBES = {
@@ -58,6 +58,7 @@ PROBES = {
     'P4-error-with-diagnostics': b'i = 7\ns = {',
     'P5-error-inside-a-single-section': b'sec {\nx = bad }',
     'P6-error-in-a-stream': b'\ni = 7\ns = {',          # parsed with cfg_parse_fp: its diagnostics name the stream, not an earlier source
+    'P7-float-first': b'f = 2.5 i = 3 l = {077}',          # conversions in an order that does not start with an integer
 }
 
 
@@ -109,7 +110,8 @@ def fresh_probe_case(hist, pname):
 def live_probe_case(hist):
     lines, cur = history_lines(hist)
     other = 'B' if cur == 'A' else 'A'
-    return Case(fixture_lines() + lines + ['note probe', 'parse_buf %s %s' % (cur, enc(PROBES['P1-plain'])), 'dump %s 0' % cur, 'dump %s 0' % other,
+    return Case(fixture_lines() + lines + ['note probe', 'parse_buf %s %s' % (cur, enc(PROBES['P7-float-first'])), 'dump %s 0' % cur,
+                                           'parse_buf %s %s' % (cur, enc(PROBES['P1-plain'])), 'dump %s 0' % cur, 'dump %s 0' % other,
                                            'parse_buf %s %s' % (other, enc(PROBES['P4-error-with-diagnostics'])), 'dump %s 0' % other,
                                            'parse_buf %s %s' % (cur, enc(PROBES['P3-include-full-depth'])), 'dump %s 0' % cur,
                                            'parse_buf %s %s' % (cur, enc(PROBES['P5-error-inside-a-single-section'])),
